@@ -49,6 +49,10 @@ type MCase struct {
 	// not all equal - static weights only apply when every endpoint carries one, so the
 	// routing is that of the unweighted set, whatever the order of the registry's list
 	WTypes []int32 `json:"wtypes,omitempty"`
+	// Reweigh (registry, all static): after the first batch of calls the registry publishes
+	// these static weights for the same endpoints and the manager refreshes; the routing is
+	// then that of the re-weighted set, also after an endpoint has left rotation
+	Reweigh []int32 `json:"reweigh,omitempty"`
 }
 
 var (
@@ -116,11 +120,19 @@ func drawM(rt *rapid.T) MCase {
 	for i := 0; i < c.NServers; i++ {
 		c.Weights = append(c.Weights, int32(rapid.SampledFrom([]int{4, 8, 20, 40, 100}).Draw(rt, "weight")))
 	}
+	if c.Registry && c.Weighted && rapid.IntRange(0, 1).Draw(rt, "reweigh") == 0 {
+		for i := 0; i < c.NServers; i++ {
+			c.Reweigh = append(c.Reweigh, int32(rapid.SampledFrom([]int{4, 8, 20, 40, 100}).Draw(rt, "newWeight")))
+		}
+	}
 	// ring points of the hosts and their neighbours are the interesting codes
 	var pts []uint32
 	for i := 0; i < c.NServers; i++ {
 		rounds := refRounds(c.Weighted, c.Weights[i])
 		pts = append(pts, refHostPoints(fmt.Sprintf("127.0.0.%d", i+1), rounds, algKetama)...)
+		if len(c.Reweigh) > 0 {
+			pts = append(pts, refHostPoints(fmt.Sprintf("127.0.0.%d", i+1), refRounds(true, c.Reweigh[i]), algKetama)...)
+		}
 	}
 	n := rapid.IntRange(1, 24).Draw(rt, "ncalls")
 	for i := 0; i < n; i++ {
@@ -274,6 +286,23 @@ func runM(c MCase) *stat.Failure {
 	if f := phase("initial set:", order, in); f != nil {
 		return f
 	}
+	if len(c.Reweigh) > 0 && mreg != nil {
+		for i := 0; i < c.NServers; i++ {
+			mreg.eps[i].Weight = c.Reweigh[i]
+			points[i] = refHostPoints(hosts[i], refRounds(true, c.Reweigh[i]), algKetama)
+		}
+		if refCollision(points) {
+			st.Excluded("ring-collision")
+			return nil
+		}
+		if err := sp.VerifRefresh(); err != nil {
+			return stat.Failf("harness-failure", "refresh: %v", err)
+		}
+		st.Class("manager-static-weights-changed-by-refresh", 1)
+		if f := phase("after the registry changed the static weights:", order, in); f != nil {
+			return f
+		}
+	}
 	if c.Block >= 0 {
 		// make one endpoint fail, let it collect >= 5 consecutive failures, advance the clock,
 		// run a status check: it leaves rotation; hash routing must follow the reduced set
@@ -327,8 +356,37 @@ func runM(c MCase) *stat.Failure {
 	return nil
 }
 
+// pinnedReweigh: the registry raises the static weight of an endpoint (8 -> 40, 4 -> 100)
+// that later leaves rotation; the codes are the ring points the endpoint owns under its new
+// weight and their neighbours.
+func pinnedReweigh() map[string]MCase {
+	out := map[string]MCase{}
+	for name, w := range map[string][2]int32{"weight-8-to-40": {8, 40}, "weight-4-to-100": {4, 100}} {
+		for blk := 0; blk < 2; blk++ {
+			c := MCase{NServers: 3, Registry: true, Weighted: true, Block: blk, Weights: []int32{20, 20, 20}, Reweigh: []int32{20, 20, 20}}
+			c.Weights[blk], c.Reweigh[blk] = w[0], w[1]
+			pts := refHostPoints(fmt.Sprintf("127.0.0.%d", blk+1), refRounds(true, w[1]), algKetama)
+			for i, p := range pts {
+				if i%3 == 0 {
+					c.Calls = append(c.Calls, MCall{HashType: 1, Code: p}, MCall{HashType: 1, Code: p - 1})
+				}
+			}
+			out[fmt.Sprintf("%s-block-%d", name, blk)] = c
+		}
+	}
+	return out
+}
+
 func TestC14Manager(t *testing.T) {
 	defer st.Emit()
+	if stat.ReplayPath() == "" {
+		pin := pinnedReweigh()
+		for name, c := range pin {
+			st.CaseJSON(c, true, "manager-level", "manager-pinned-reweigh-then-block")
+			_ = name
+		}
+		stat.Pinned(t, st, "manager-pinned-reweigh", pin, runM)
+	}
 	stat.Check(t, st, "manager", stat.N(60, 2500), drawM, func(c MCase) *stat.Failure {
 		cls := []string{"manager-level", fmt.Sprintf("manager-servers-%d", c.NServers)}
 		if c.Registry {
